@@ -1,4 +1,4 @@
-/-! M2: `asyncio.Queue` (unbounded) with the `async with queue as item` context manager of
+/-! M2: `asyncio.Queue` (unbounded, or bounded by `maxsize`) with the `async with queue as item` context manager of
 `asyncio_taskpool.queue_context.Queue`. Import-free.
 
 The state has two layers.
@@ -6,7 +6,12 @@ The state has two layers.
   join tasks, what every consumer is doing (`CPhase`) and the ghost counters of C20.  Everything C20 talks about.
 * the *asyncio shell* around it (`Q`): the `_getters` deque, the per-task bookkeeping of the event loop
   (`Aux`: state of the awaited future, `must_cancel`, scheduled), the ready queue and the observation log.
-  The shell decides *which* core operation happens; it never edits the core by hand. -/
+  The shell decides *which* core operation happens; it never edits the core by hand.
+
+A queue is created with a `maxsize` (`K.initN n`; `0` = unbounded, `K.init`).  On a bounded queue the synchronous
+`put_nowait` of non-task code raises `QueueFull` when the queue is full (nothing changes), and *producer tasks*
+(`await queue.put(x)`) wait in the `_putters` deque while it is full; `get_nowait()` wakes the next putter.  An item counts
+as *put* when it enters the queue (`_put` + `_unfinished_tasks += 1` inside `put_nowait`). -/
 namespace Taskpool.QueueM
 
 inductive FSt | pending | woken | cancelled
@@ -22,6 +27,36 @@ inductive CPhase
   | inBlock (item : Nat)           -- the body runs / is suspended on its gate
   | done (e : Exit) (took : Bool)  -- `took`: an item had been handed to its block
 deriving DecidableEq, Repr, Inhabited
+
+/-- what a producer task (`await queue.put(item)`) is doing -/
+inductive PPhase
+  | notStarted
+  | waiting                        -- inside `put()`, suspended on a putter future (the queue was full)
+  | done (put : Bool)              -- `put`: the item entered the queue; `false`: cancelled before it did
+deriving DecidableEq, Repr, Inhabited
+
+/-- the part of a producer C20 talks about -/
+structure Prod where
+  item  : Nat
+  phase : PPhase
+deriving DecidableEq, Repr, Inhabited
+
+/-- the item of this producer has entered the queue -/
+def putDone : PPhase → Bool
+  | .done true => true
+  | _ => false
+
+/-- not yet through `put()`: not started, or waiting for a free slot -/
+def prePut : PPhase → Bool
+  | .notStarted => true
+  | .waiting => true
+  | _ => false
+
+def isPDone : PPhase → Bool
+  | .done _ => true
+  | _ => false
+
+def Prod.putDone (p : Prod) : Bool := QueueM.putDone p.phase
 
 /-- the part of a consumer C20 talks about -/
 structure Core where
@@ -67,12 +102,14 @@ structure Joiner where
   sched : Bool
 deriving DecidableEq, Repr, Inhabited
 
-inductive Ref | consumer (c : Nat) | joiner (j : Nat)
+inductive Ref | consumer (c : Nat) | joiner (j : Nat) | producer (p : Nat)
 deriving DecidableEq, Repr, Inhabited
 
 inductive Ev
   | got (c item : Nat) | exited (c : Nat) | taskDone (u : Nat) | valueError | sawCancel (c : Nat) | joined (j : Nat)
   | handTook (item : Nat)          -- non-task code took `item` with `get_nowait()` (it marks it by hand at once)
+  | putDone (p item : Nat)         -- `await queue.put(item)` of producer `p` returned
+  | pCancel (p : Nat)              -- `CancelledError` left `put()` of producer `p`
 deriving DecidableEq, Repr, Inhabited
 
 /-! ## the accounting core -/
@@ -84,25 +121,55 @@ structure K where
   evWaiters   : List Nat           -- waiters of `_finished`: joiner ids (their futures may be resolved already)
   cores       : List Core
   joiners     : List Joiner
-  puts        : Nat                -- ghost: number of puts
+  puts        : Nat                -- ghost: number of items that entered the queue
   exits       : Nat                -- ghost: number of block exits
   takes       : Nat                -- ghost: number of items taken with `get_nowait()` and marked by hand
   tdCalls     : Nat                -- ghost: number of `task_done()` calls
   valueErrors : Nat                -- ghost: how many of them raised `ValueError`
+  maxsize     : Nat                -- `_maxsize`; 0 = unbounded.  No operation changes it
+  prods       : List Prod          -- the producer tasks
+  hputs       : Nat                -- ghost: number of successful `put_nowait` calls by non-task code
 deriving Repr, Inhabited
 
-def K.init : K :=
+/-- `Queue(maxsize=n)` -/
+def K.initN (n : Nat) : K :=
   { items := [], unfinished := 0, finished := true, evWaiters := [], cores := [], joiners := [],
-    puts := 0, exits := 0, takes := 0, tdCalls := 0, valueErrors := 0 }
+    puts := 0, exits := 0, takes := 0, tdCalls := 0, valueErrors := 0, maxsize := n, prods := [], hputs := 0 }
+
+/-- `Queue()` -/
+def K.init : K := K.initN 0
 
 namespace K
 
 def setPhase (k : K) (c : Nat) (p : CPhase) : K := { k with cores := k.cores.modify c fun x => { x with phase := p } }
 def addMark (k : K) (c : Nat) : K := { k with cores := k.cores.modify c fun x => { x with marks := x.marks + 1 } }
 
-/-- `put_nowait`: append, count, clear the event -/
+/-- `full()` -/
+def full (k : K) : Bool := decide (0 < k.maxsize) && decide (k.maxsize ≤ k.items.length)
+
+/-- `put_nowait` by non-task code, on a queue that is not full: append, count, clear the event -/
 def put (k : K) (x : Nat) : K :=
-  { k with items := k.items ++ [x], unfinished := k.unfinished + 1, finished := false, puts := k.puts + 1 }
+  { k with items := k.items ++ [x], unfinished := k.unfinished + 1, finished := false, puts := k.puts + 1,
+           hputs := k.hputs + 1 }
+
+def setPP (k : K) (j : Nat) (p : PPhase) : K := { k with prods := k.prods.modify j fun x => { x with phase := p } }
+
+/-- a new producer task `await queue.put(x)` -/
+def produce (k : K) (x : Nat) : K := { k with prods := k.prods ++ [{ item := x, phase := .notStarted }] }
+
+/-- `put()` finds the queue full: a putter future is awaited -/
+def pwait (k : K) (j : Nat) : K := k.setPP j .waiting
+
+/-- `put()` finds the queue not full: `put_nowait(item)` of producer `j` — append, count, clear the event -/
+def pput (k : K) (j : Nat) : K :=
+  match k.prods[j]? with
+  | none => k
+  | some p =>
+    ({ k with items := k.items ++ [p.item], unfinished := k.unfinished + 1, finished := false, puts := k.puts + 1 } : K).setPP j
+      (.done true)
+
+/-- `CancelledError` leaves `put()`: nothing was put -/
+def pabort (k : K) (j : Nat) : K := k.setPP j (.done false)
 
 def spawn (k : K) : K := { k with cores := k.cores ++ [{ phase := .notStarted, marks := 0 }] }
 def join (k : K) : K := { k with joiners := k.joiners ++ [{ phase := .notStarted, fut := .pending, sched := true }] }
@@ -193,18 +260,26 @@ structure Q where
   aux     : List Aux
   ready   : List Ref               -- the loop's ready queue
   log     : List Ev                -- cumulative observation log
+  putters : List Nat               -- `_putters`: producer ids; the state of each future is the producer's `gate`
+  paux    : List Aux               -- event-loop bookkeeping of the producer tasks (`gate` = the putter future)
 deriving Repr, Inhabited
 
-def Q.init : Q := { k := K.init, getters := [], aux := [], ready := [], log := [] }
+/-- the world around `Queue(maxsize=n)` -/
+def Q.initN (n : Nat) : Q := { k := K.initN n, getters := [], aux := [], ready := [], log := [], putters := [], paux := [] }
+
+/-- the world around `Queue()` -/
+def Q.init : Q := Q.initN 0
 
 inductive Input
-  | put (x : Nat)
+  | put (x : Nat)                  -- non-task code: `put_nowait(x)` (`QueueFull` on a full queue: nothing changes)
   | spawn                          -- a new consumer task `async with queue as item: await gate`
   | join                           -- a new task awaiting `queue.join()`
   | cancel (c : Nat)               -- `Task.cancel()` on consumer `c`
   | gate (c : Nat) (exc : Bool)    -- the body of consumer `c` finishes normally / raises
   | take                           -- non-task code: `get_nowait()`, then `item_processed()` for the item it got
   | run (i : Nat)                  -- the loop executes the `i`-th ready handle
+  | produce (x : Nat)              -- a new producer task `await queue.put(x)`
+  | cancelp (p : Nat)              -- `Task.cancel()` on producer `p`
 deriving DecidableEq, Repr, Inhabited
 
 namespace Q
@@ -214,12 +289,20 @@ def modA (q : Q) (c : Nat) (f : Aux → Aux) : Q := { q with aux := q.aux.modify
 def logEv (q : Q) (e : Ev) : Q := { q with log := q.log ++ [e] }
 def schedC (q : Q) (c : Nat) : Q := { (q.modA c fun x => { x with sched := true }) with ready := q.ready ++ [.consumer c] }
 
+def modP (q : Q) (j : Nat) (f : Aux → Aux) : Q := { q with paux := q.paux.modify j f }
+def schedP (q : Q) (j : Nat) : Q := { (q.modP j fun x => { x with sched := true }) with ready := q.ready ++ [.producer j] }
+
 def gateOf (q : Q) (c : Nat) : FSt := (q.aux[c]?.map (·.gate)).getD .cancelled
+def pgateOf (q : Q) (j : Nat) : FSt := (q.paux[j]?.map (·.gate)).getD .cancelled
+
+/-- `_wakeup_next(waiters)`: pop waiters until one that is not done is found (it is resolved by the caller); `g` = the
+state of the future of each waiter -/
+def wakeupNextBy (g : Nat → FSt) : List Nat → List Nat × Option Nat
+  | [] => ([], none)
+  | c :: rest => if g c = .pending then (rest, some c) else wakeupNextBy g rest
 
 /-- `_wakeup_next(self._getters)`: pop getters until one that is not done is found and resolve it -/
-def wakeupNext (q : Q) : List Nat → List Nat × Option Nat
-  | [] => ([], none)
-  | c :: rest => if q.gateOf c = .pending then (rest, some c) else wakeupNext q rest
+def wakeupNext (q : Q) : List Nat → List Nat × Option Nat := wakeupNextBy q.gateOf
 
 def wakeGetter (q : Q) : Q :=
   let r := wakeupNext q q.getters
@@ -228,8 +311,16 @@ def wakeGetter (q : Q) : Q :=
   | none => q
   | some c => (q.modA c fun x => { x with gate := .woken, suspended := false }).schedC c
 
-/-- `put_nowait` -/
-def put (q : Q) (x : Nat) : Q := (q.setK (q.k.put x)).wakeGetter
+/-- `_wakeup_next(self._putters)` -/
+def wakePutter (q : Q) : Q :=
+  let r := wakeupNextBy q.pgateOf q.putters
+  let q : Q := { q with putters := r.1 }
+  match r.2 with
+  | none => q
+  | some j => (q.modP j fun x => { x with gate := .woken, suspended := false }).schedP j
+
+/-- `put_nowait` by non-task code: `QueueFull` on a full queue (nothing changes) -/
+def put (q : Q) (x : Nat) : Q := if q.k.full then q else (q.setK (q.k.put x)).wakeGetter
 
 /-- the body of the block is suspended on its gate; a pending `must_cancel` cancels it at once -/
 def armGate (q : Q) (c : Nat) : Q :=
@@ -255,7 +346,7 @@ def waitGetter (q : Q) (c : Nat) : Q :=
 def tryGet (q : Q) (c : Nat) : Q :=
   match q.k.items with
   | [] => (q.setK (q.k.wait c)).waitGetter c
-  | x :: _ => ((q.setK (q.k.take c)).logEv (.got c x)).armGate c
+  | x :: _ => (((q.setK (q.k.take c)).wakePutter).logEv (.got c x)).armGate c
 
 /-- the block is left: `__aexit__` calls `item_processed()`, i.e. `task_done()` -/
 def exitBlock (q : Q) (c : Nat) (e : Exit) : Q :=
@@ -264,15 +355,16 @@ def exitBlock (q : Q) (c : Nat) (e : Exit) : Q :=
             log := q.log ++ [.exited c, if q.k.unfinished = 0 then .valueError else .taskDone (q.k.unfinished - 1)] } : Q).modA c
     fun x => { x with suspended := false }
 
-/-- `take`: `item = q.get_nowait()` (pops the head; there are no putters to wake, the queue is unbounded; the getters
-are not touched) followed by `q.item_processed()`; on an empty queue `QueueEmpty` is raised and nothing changes -/
+/-- `take`: `item = q.get_nowait()` (pops the head and wakes the next putter; the getters are not touched) followed by
+`q.item_processed()`; on an empty queue `QueueEmpty` is raised and nothing changes -/
 def handTake (q : Q) : Q :=
   match q.k.items with
   | [] => q
   | x :: _ =>
-    { q with k := q.k.handTake,
-             ready := q.ready ++ (if q.k.unfinished = 1 then q.k.wokenRefs else []),
-             log := q.log ++ [.handTook x, if q.k.unfinished = 0 then .valueError else .taskDone (q.k.unfinished - 1)] }
+    let q1 := q.wakePutter
+    { q1 with k := q.k.handTake,
+              ready := q1.ready ++ (if q.k.unfinished = 1 then q.k.wokenRefs else []),
+              log := q.log ++ [.handTook x, if q.k.unfinished = 0 then .valueError else .taskDone (q.k.unfinished - 1)] }
 
 /-- `except: getter.cancel(); remove from _getters; if not empty and not getter.cancelled(): wake next; raise` -/
 def abortGet (q : Q) (c : Nat) (wasResolved : Bool) : Q :=
@@ -332,6 +424,59 @@ def canGate (q : Q) (c : Nat) : Bool :=
 def gate (q : Q) (c : Nat) (exc : Bool) : Q :=
   if q.canGate c then (q.modA c fun x => { x with gate := .woken, gateExc := exc, suspended := false }).schedC c else q
 
+/-! ### producer tasks: `await queue.put(x)` -/
+
+/-- wait in `put()`: a new putter future -/
+def waitPutter (q : Q) (j : Nat) : Q :=
+  ({ q with putters := q.putters ++ [j] } : Q).modP j fun x => { x with gate := .pending, suspended := true }
+
+/-- `put()`: loop while full, then `put_nowait` (which wakes the next getter) -/
+def tryPut (q : Q) (j x : Nat) : Q :=
+  if q.k.full then (q.setK (q.k.pwait j)).waitPutter j
+  else ((q.setK (q.k.pput j)).wakeGetter).logEv (.putDone j x)
+
+/-- `except: putter.cancel(); remove from _putters; if not full and not putter.cancelled(): wake next; raise` -/
+def abortPut (q : Q) (j : Nat) (wasResolved : Bool) : Q :=
+  let q : Q := ({ q with putters := q.putters.erase j } : Q).setK (q.k.pabort j)
+  let q := if !q.k.full && wasResolved then q.wakePutter else q
+  q.logEv (.pCancel j)
+
+/-- a producer wakes up inside `put()` -/
+def wakeProducer (q : Q) (j : Nat) (a : Aux) (x : Nat) : Q :=
+  let q' := q.modP j fun y => { y with mustCancel := false, suspended := false }
+  if a.gate == .cancelled || a.mustCancel then q'.abortPut j (a.gate == .woken) else q'.tryPut j x
+
+/-- first step of a producer task; a task cancelled before it never runs its body -/
+def startProducer (q : Q) (j : Nat) (a : Aux) (x : Nat) : Q :=
+  if a.mustCancel then (q.modP j fun y => { y with mustCancel := false }).setK (q.k.pabort j)
+  else q.tryPut j x
+
+def stepProducer (q : Q) (j : Nat) : Q :=
+  match q.k.prods[j]?, q.paux[j]? with
+  | some p, some a =>
+    if !a.sched then q else
+    let q := q.modP j fun x => { x with sched := false }
+    match p.phase with
+    | .notStarted => q.startProducer j a p.item
+    | .waiting => q.wakeProducer j a p.item
+    | .done _ => q
+  | _, _ => q
+
+/-- `Task.cancel()` on a producer -/
+def cancelProducer (q : Q) (j : Nat) : Q :=
+  match q.k.prods[j]?, q.paux[j]? with
+  | some p, some a =>
+    if isPDone p.phase then q
+    else if a.suspended && a.gate == .pending then
+      (q.modP j fun x => { x with gate := .cancelled, suspended := false }).schedP j
+    else q.modP j fun x => { x with mustCancel := true }
+  | _, _ => q
+
+def produce (q : Q) (x : Nat) : Q :=
+  { q with k := q.k.produce x,
+           paux := q.paux ++ [{ gate := .pending, gateExc := false, suspended := false, mustCancel := false, sched := true }],
+           ready := q.ready ++ [.producer q.paux.length] }
+
 def spawn (q : Q) : Q :=
   { q with k := q.k.spawn,
            aux := q.aux ++ [{ gate := .pending, gateExc := false, suspended := false, mustCancel := false, sched := true }],
@@ -345,6 +490,7 @@ def stepJoiner (q : Q) (j : Nat) : Q :=
 def runRef (q : Q) : Ref → Q
   | .consumer c => q.stepConsumer c
   | .joiner j => q.stepJoiner j
+  | .producer j => q.stepProducer j
 
 def step (q : Q) : Input → Q
   | .put x => q.put x
@@ -353,6 +499,8 @@ def step (q : Q) : Input → Q
   | .cancel c => q.cancelConsumer c
   | .gate c exc => q.gate c exc
   | .take => q.handTake
+  | .produce x => q.produce x
+  | .cancelp j => q.cancelProducer j
   | .run i =>
     match q.ready[i]? with
     | none => q
